@@ -118,28 +118,51 @@ Proof.
   match goal with |- context [15 <? ?x] => replace (15 <? x) with false by lia end; reflexivity.
 Qed.
 
-Definition SYNC : bits := [false; true; false; true; false; true; true; false; true; true; true].
-
 Lemma bl_cons : forall (x : bool) bs, bits_left (x :: bs) = 1 + bits_left bs.
 Proof. intros. unfold bits_left. cbn [length]. lia. Qed.
 
-Lemma scan_ga : forall f R sr, 5 <= bits_left R ->
-  go_scan sr 0 (f :: false :: false :: SYNC ++ R) = go_sync_ext sr 0 R.
+Lemma read_u_app : forall n A R v r,
+  read_u n A = Some (v, r) -> read_u n (A ++ R) = Some (v, r ++ R).
 Proof.
-  intros f R sr H. unfold SYNC. cbn [app].
-  assert (0 <= bits_left R) by (unfold bits_left; lia).
-  rewrite scan_skip; [| rewrite !bl_cons; lia | destruct f; vm_compute; reflexivity].
-  rewrite scan_skip; [| rewrite !bl_cons; lia | vm_compute; reflexivity].
-  rewrite scan_skip; [| rewrite !bl_cons; lia | vm_compute; reflexivity].
-  apply scan_hit; [rewrite !bl_cons; lia | vm_compute; reflexivity | vm_compute; reflexivity].
+  induction n; intros A R v r H; cbn [read_u] in *.
+  - inversion H; subst. reflexivity.
+  - destruct A as [|x A]; try discriminate. cbn [app].
+    destruct (read_u n A) as [[v' r']|] eqn:E; try discriminate.
+    rewrite (IHn _ R _ _ E). inversion H; subst. reflexivity.
 Qed.
 
-Lemma scan_layer : forall R sr, 5 <= bits_left R ->
-  go_scan sr 0 (false :: SYNC ++ R) = go_sync_ext sr 0 R.
+Lemma peek11_app : forall A R w, go_peek 11 A = Some w -> go_peek 11 (A ++ R) = Some w.
 Proof.
-  intros R sr H. unfold SYNC. cbn [app].
-  rewrite scan_skip; [| rewrite !bl_cons; lia | vm_compute; reflexivity].
-  apply scan_hit; [rewrite !bl_cons; lia | vm_compute; reflexivity | vm_compute; reflexivity].
+  unfold go_peek, go_read. cbn [Z.leb Z.compare Z.ltb orb]. intros A R w H.
+  destruct (read_u (Z.to_nat 11) A) as [[v r]|] eqn:E; try discriminate.
+  rewrite (read_u_app _ _ R _ _ E). exact H.
+Qed.
+
+(* the scan walks over unread bits that do not spell the sync word and stops at the real one *)
+Lemma scan_payload : forall p R sr, 5 <= bits_left R -> clean p = true ->
+  go_scan sr 0 (p ++ SYNC ++ R) = go_sync_ext sr 0 R.
+Proof.
+  induction p as [|x q IH]; intros R sr HR Hc.
+  - unfold SYNC. cbn [app].
+    apply scan_hit; [rewrite !bl_cons; lia | vm_compute; reflexivity | vm_compute; reflexivity].
+  - cbn [clean] in Hc. apply andb_prop in Hc. destruct Hc as [Hw Hq].
+    change ((x :: q) ++ SYNC ++ R) with (x :: (q ++ SYNC ++ R)).
+    rewrite scan_skip.
+    + apply IH; auto.
+    + rewrite bl_cons, !bits_left_app. unfold SYNC. cbn [length]. lia.
+    + destruct (go_peek 11 ((x :: q) ++ SYNC)) as [w|] eqn:E; try discriminate.
+      change (x :: q ++ SYNC ++ R) with ((x :: q) ++ SYNC ++ R).
+      rewrite app_assoc. rewrite (peek11_app _ R _ E). exact Hw.
+Qed.
+
+Lemma scan_nohit : forall bs sr e, scan_hits bs = false -> go_scan sr e bs = Some e.
+Proof.
+  induction bs as [|x r IH]; intros sr e H.
+  - reflexivity.
+  - cbn [scan_hits] in H. cbn [go_scan].
+    destruct (15 <? bits_left (x :: r)); auto.
+    destruct (go_peek 11 (x :: r)) as [w|]; try discriminate.
+    destruct (w =? 695); try discriminate. apply IH. exact H.
 Qed.
 
 (* after the sync word: extension AOT 5, sbr flag, extension rate, optional PS word *)
@@ -179,79 +202,113 @@ Qed.
 Lemma sync_is : ubits 11 695 = SYNC.
 Proof. reflexivity. Qed.
 
-Lemma channels_small : forall c, 1 <= c <= 7 -> (c <? 8) = true.
+Lemma chan_small : forall c, 0 <= c <= 7 -> (c <? 8) = true.
 Proof. intros. lia. Qed.
+
+Lemma read32 : forall v r, 0 <= v < 2 ^ 32 -> go_read 32 32 (ubits 32 v ++ r) = Some (v, r).
+Proof. intros. apply (go_read_ubits 32 32 v r); lia. Qed.
+Lemma read32w : forall v r, 0 <= v < 2 ^ 32 -> go_read 32 64 (ubits 32 v ++ r) = Some (v, r).
+Proof. intros. apply (go_read_ubits 32 64 v r); lia. Qed.
+Lemma read16 : forall v r, 0 <= v < 2 ^ 16 -> go_read 16 64 (ubits 16 v ++ r) = Some (v, r).
+Proof. intros. apply (go_read_ubits 16 64 v r); lia. Qed.
+
+(* AOT 36: fillBits, als_id, samp_freq, samples, channels *)
+Lemma go_als_bits : forall freq samples ch R,
+  0 < freq < 2 ^ 32 -> 0 <= samples < 2 ^ 32 -> 0 <= ch < 2 ^ 16 ->
+  go_als (ubits 5 0 ++ ubits 32 ALS_ID ++ ubits 32 freq ++ ubits 32 samples ++ ubits 16 ch ++ R)
+  = Some (freq, (ch + 1) mod 256, R).
+Proof.
+  intros freq samples ch R Hf Hs Hc. unfold go_als.
+  rewrite (go_skip_ubits 5 0) by lia.
+  replace (go_peek 24 (ubits 32 ALS_ID ++ ubits 32 freq ++ ubits 32 samples ++ ubits 16 ch ++ R))
+    with (Some ALS_TAG) by (vm_compute; reflexivity).
+  rewrite Z.eqb_refl.
+  assert (HR : 0 <= bits_left R) by (unfold bits_left; lia).
+  replace (bits_left (ubits 32 ALS_ID ++ ubits 32 freq ++ ubits 32 samples ++ ubits 16 ch ++ R) <? 112)
+    with false by (rewrite !bits_left_app, !ubits_length; lia).
+  rewrite read32 by (unfold ALS_ID; lia).
+  change (negb (ALS_ID =? ALS_TAG0)) with false. cbv iota.
+  rewrite read32w by lia.
+  replace (freq <=? 0) with false by lia.
+  rewrite (go_skip_ubits 32 samples) by lia.
+  rewrite read16 by lia. reflexivity.
+Qed.
 
 Theorem asc_spec : forall e,
   asc_wf e = true -> go_asc (asc_bytes e) = Some (spec_rate e, spec_channels e).
 Proof.
-  intros e H. unfold asc_wf in H.
+  intros e H. unfold asc_wf, asc_wf_gen in H.
   repeat (apply andb_prop in H; let h := fresh "W" in destruct H as [H h]).
   unfold go_asc, go_asc_with, asc_bytes. rewrite bytes_to_bits_to_bytes. unfold pad8.
-  set (P := repeat false _).
-  assert (HP : bits_left P < 8).
-  { unfold P, bits_left. rewrite repeat_length.
+  fold (asc_pad e).
+  assert (HP : bits_left (asc_pad e) < 8).
+  { unfold asc_pad, bits_left. rewrite repeat_length.
     rewrite Z2Nat.id by (apply Z.mod_pos_bound; lia).
     apply Z.mod_pos_bound. lia. }
-  assert (HP0 : 0 <= bits_left P) by (unfold bits_left; lia).
+  assert (HP0 : 0 <= bits_left (asc_pad e)) by (unfold bits_left; lia).
+  unfold payload_ok in W.
+  set (P := asc_pad e) in *. clearbody P.
   unfold spec_rate, spec_channels, spec_sbr_explicit.
-  unfold asc_bits.
+  unfold asc_bits, spec_read.
+  set (REST := spec_rest e) in *. clearbody REST.
   set (aot := get e ka_aot) in *. set (hier := get e ka_hier) in *.
   set (sfi := get e ka_sfi) in *. set (sf := get e ka_sf) in *.
-  set (chan := get e ka_chan) in *. set (flen := get e ka_flen) in *.
+  set (chan := get e ka_chan) in *.
   set (esfi := get e ka_ext_sfi) in *. set (esf := get e ka_ext_sf) in *.
   set (sync := get e ka_sync) in *. set (sbr := get e ka_sbr_flag) in *.
   set (pss := get e ka_ps_sync) in *. set (psf := get e ka_ps_flag) in *.
+  set (afreq := get e ka_als_freq) in *. set (asamp := get e ka_als_samples) in *.
+  set (achan := get e ka_als_chan) in *.
   assert (Hsfi : 0 <= sfi <= 15) by (unfold sfi_ok in *; lia).
   assert (Hesfi : 0 <= esfi <= 15) by (unfold sfi_ok in *; lia).
   assert (Hesr : 0 < rate_of esfi esf) by (apply rate_of_pos; auto; lia).
-  assert (Haot : (1 <= aot <= 4) \/ (32 <= aot <= 34 /\ hier = 0)) by (unfold is_ga, is_layer in *; lia).
   destruct (hier =? 0) eqn:H0.
   - (* no hierarchical signalling *)
+    unfold core_ok in *.
     cbn [negb orb andb].
     rewrite <- !app_assoc. cbn [app].
     rewrite get_aot_bits by lia.
     rewrite get_rate_bits by lia.
     rewrite read4 by lia.
-    rewrite channels_small by lia.
+    rewrite chan_small by lia.
     replace (aot =? 5) with false by lia. replace (aot =? 29) with false by lia.
-    replace (aot =? 36) with false by lia.
-    destruct (is_ga aot) eqn:G.
-    + destruct (sync =? 1) eqn:S1.
-      * rewrite sync_is. cbn [app]. rewrite <- !app_assoc.
-        rewrite scan_ga.
+    unfold is_als in *.
+    destruct (aot =? 36) eqn:A36.
+    + (* ALS *)
+      assert (Hs0 : sync = 0) by lia.
+      replace (sync =? 1) with false in * by lia. cbn [app].
+      rewrite <- !app_assoc.
+      rewrite go_als_bits by lia.
+      apply negb_true_iff in W. rewrite (scan_nohit _ afreq 0 W).
+      cbn [Z.ltb Z.compare]. f_equal. f_equal. rewrite Z.mod_small; lia.
+    + cbn [app].
+      destruct (sync =? 1) eqn:S1.
+      * rewrite sync_is. rewrite <- !app_assoc.
+        rewrite scan_payload; auto.
         2:{ rewrite bits_left_app. unfold aot_bits. cbn [Z.ltb Z.compare Pos.compare Pos.compare_cont].
             rewrite ubits_length. unfold bits_left. lia. }
         cbn [app]. rewrite (sync_ext_bits (rate_of sfi sf) sbr esfi esf pss psf P) by (auto; lia).
         destruct (sbr =? 1) eqn:B1.
         -- replace (0 <? rate_of esfi esf) with true by lia. reflexivity.
         -- cbn [Z.ltb Z.compare]. reflexivity.
-      * cbn [app]. rewrite scan_short by (rewrite !bl_cons; lia). reflexivity.
-    + destruct (sync =? 1) eqn:S1.
-      * rewrite sync_is. cbn [app]. rewrite <- !app_assoc.
-        rewrite scan_layer.
-        2:{ rewrite bits_left_app. unfold aot_bits. cbn [Z.ltb Z.compare Pos.compare Pos.compare_cont].
-            rewrite ubits_length. unfold bits_left. lia. }
-        cbn [app]. rewrite (sync_ext_bits (rate_of sfi sf) sbr esfi esf pss psf P) by (auto; lia).
-        destruct (sbr =? 1) eqn:B1.
-        -- replace (0 <? rate_of esfi esf) with true by lia. reflexivity.
-        -- cbn [Z.ltb Z.compare]. reflexivity.
-      * cbn [app]. rewrite scan_short by (rewrite !bl_cons; lia). reflexivity.
+      * apply negb_true_iff in W. cbn [app]. rewrite (scan_nohit _ (rate_of sfi sf) 0 W).
+        reflexivity.
   - (* hierarchical SBR (outer AOT 5) or PS (outer AOT 29) *)
     cbn [negb orb andb].
-    assert (Ga : is_ga aot = true) by (unfold is_ga in *; lia).
-    rewrite Ga.
+    assert (Ga : is_ga aot = true) by auto.
+    assert (A36 : is_als aot = false) by (unfold is_ga, is_als in *; lia).
+    rewrite A36 in *. cbn [app].
     destruct (hier =? 1) eqn:H1.
     + rewrite <- !app_assoc.
       rewrite get_aot_bits by lia. rewrite get_rate_bits by lia. rewrite read4 by lia.
-      rewrite channels_small by lia. cbn [Z.eqb Pos.eqb].
+      rewrite chan_small by lia. cbn [Z.eqb Pos.eqb].
       rewrite get_rate_bits by lia. rewrite get_aot_bits by (unfold is_ga in *; lia).
       replace (aot =? 22) with false by (unfold is_ga in *; lia).
       replace (aot =? 36) with false by (unfold is_ga in *; lia).
       replace (0 <? rate_of esfi esf) with true by lia. reflexivity.
     + rewrite <- !app_assoc.
       rewrite get_aot_bits by lia. rewrite get_rate_bits by lia. rewrite read4 by lia.
-      rewrite channels_small by lia. cbn [Z.eqb Pos.eqb].
+      rewrite chan_small by lia. cbn [Z.eqb Pos.eqb].
       rewrite ps_take_hier by auto.
       rewrite get_rate_bits by lia. rewrite get_aot_bits by (unfold is_ga in *; lia).
       replace (aot =? 22) with false by (unfold is_ga in *; lia).
@@ -267,7 +324,7 @@ Qed.
 
 Theorem asc_model_passes : forall e data, ok_asc e data (go_asc data) = true.
 Proof.
-  intros e data. unfold ok_asc.
+  intros e data. unfold ok_asc, ok_asc_gen. fold asc_wf.
   destruct (asc_wf e && zl_eqb data (asc_bytes e)) eqn:G; auto.
   apply andb_prop in G. destruct G as [Hw Hd]. apply zl_eqb_eq in Hd. subst data.
   rewrite (asc_spec e Hw). unfold aobs_eqb. rewrite !Z.eqb_refl. reflexivity.
@@ -282,3 +339,67 @@ Theorem asc_ps_refuted :
   go_asc_with ps_take_d36 (asc_bytes asc_d36) = Some (24000, 1) /\
   go_asc (asc_bytes asc_d36) = Some (48000, 1).
 Proof. vm_compute. repeat split; reflexivity. Qed.
+
+(* ---------------------------------------------------------------- ALS *)
+Definition kv_asc (l : list (Z * Z)) : env := fold_left (fun a kv => set a (fst kv) (snd kv)) l env0.
+
+(* 5.1 ALS at 192 kHz behind sampling index 3: samp_freq and channels + 1 are reported *)
+Definition asc_als51 : env :=
+  kv_asc [(ka_aot, 36); (ka_sfi, 3); (ka_ext_sfi, 3); (ka_ext_sf, 1); (ka_plen, 128);
+          (ka_als_freq, 192000); (ka_als_samples, 65536); (ka_als_chan, 5); (ka_pbit 5, 1)].
+Example asc_als_nonvacuous :
+  asc_wf asc_als51 = true /\ go_asc (asc_bytes asc_als51) = Some (192000, 6).
+Proof. vm_compute. split; reflexivity. Qed.
+
+(* known finding: the count is kept in a uint8 — 256 channels are reported as 0 *)
+Definition asc_als256 : env :=
+  kv_asc [(ka_aot, 36); (ka_sfi, 3); (ka_ext_sfi, 3); (ka_ext_sf, 1); (ka_plen, 128);
+          (ka_als_freq, 48000); (ka_als_samples, 65536); (ka_als_chan, 255)].
+Theorem asc_als_wide_refuted :
+  asc_wf_gen 65535 asc_als256 = true /\ spec_channels asc_als256 = 256 /\
+  go_asc (asc_bytes asc_als256) = Some (48000, 0).
+Proof. vm_compute. repeat split; reflexivity. Qed.
+
+(* limit of the scanning heuristic: specific-config bits that spell 0x2b7 + AOT 5 + sbr + rate are
+   taken for a sync extension (this is what the guard payload_ok excludes) *)
+Definition asc_false_sync : env :=
+  kv_asc ([(ka_aot, 23); (ka_sfi, 3); (ka_chan, 2); (ka_ext_sfi, 3); (ka_ext_sf, 1); (ka_plen, 21)] ++
+          map (fun i => (ka_pbit i, 1)) [1; 3; 5; 6; 8; 9; 10; 13; 15; 16; 18; 19]).
+Theorem asc_false_sync_refuted :
+  payload_ok asc_false_sync = false /\ spec_rate asc_false_sync = 48000 /\
+  go_asc (asc_bytes asc_false_sync) = Some (24000, 2).
+Proof. vm_compute. repeat split; reflexivity. Qed.
+
+(* the guard payload_ok is automatic for the configurations without opaque bits
+   (AAC main/LC/SSR/LTP with channelConfiguration 1..7, Layer 1-3) *)
+Lemma scan_hits_short : forall bs, bits_left bs <= 15 -> scan_hits bs = false.
+Proof.
+  intros bs H. destruct bs; cbn [scan_hits];
+  match goal with |- context [15 <? ?x] => replace (15 <? x) with false by lia end; reflexivity.
+Qed.
+
+Theorem payload_ok_plain : forall e,
+  (is_ga (get e ka_aot) && negb (get e ka_chan =? 0)) || is_layer (get e ka_aot) = true ->
+  payload_ok e = true.
+Proof.
+  intros e H. unfold payload_ok.
+  assert (HP : bits_left (asc_pad e) < 8).
+  { unfold asc_pad, bits_left. rewrite repeat_length.
+    rewrite Z2Nat.id by (apply Z.mod_pos_bound; lia).
+    apply Z.mod_pos_bound. lia. }
+  destruct (get e ka_hier =? 0); auto.
+  unfold spec_rest.
+  destruct (is_ga (get e ka_aot)) eqn:G.
+  - assert (C : (get e ka_chan =? 0) = false).
+    { destruct (get e ka_chan =? 0); auto. cbn [negb andb orb] in H.
+      unfold is_ga, is_layer in *. lia. }
+    rewrite C. cbn [app].
+    destruct (get e ka_sync =? 1).
+    + destruct (bit_of (get e ka_flen)); vm_compute; reflexivity.
+    + rewrite scan_hits_short; auto. rewrite !bl_cons. lia.
+  - assert (L : is_layer (get e ka_aot) = true) by (cbn [andb orb] in H; exact H).
+    rewrite L.
+    destruct (get e ka_sync =? 1).
+    + vm_compute. reflexivity.
+    + rewrite scan_hits_short; auto. cbn [app]. rewrite !bl_cons. lia.
+Qed.
